@@ -82,6 +82,16 @@ class Check(PropertyCheck):
                     a = self.rng.choice(["a", "+", "ab", "+--+\n|  |\n+--+", "-", "*"])
                 if not b:
                     mode = "stack"
+            if mode == "side" and self.rng.chance(1, 5):
+                # a free-standing short stroke in the last column of the left part and one in the first column of the
+                # right part, on the same row
+                la, lb = a.split("\n"), b.split("\n")
+                wa = max(gen.dispw(l) for l in la)
+                row = self.rng.below(min(len(la), len(lb)))
+                dash = self.rng.choice(["-", "_", "~~", "-"])
+                la = [l + " " * (wa - gen.dispw(l)) + ("  " + dash if i == row else "") for i, l in enumerate(la)]
+                lb = [(dash + "  " if i == row else " " * (len(dash) + 2)) + l if (l or i == row) else l for i, l in enumerate(lb)]
+                a, b = clean("\n".join(la)), "\n".join(x.rstrip() for x in lb)
             out.append((a, b, gap, mode))
         return out
 
